@@ -33,6 +33,10 @@ KINDS = {
     "replace-blank": ("@@\nvar x expression\n@@\n-import _ \"{T}\"\n+import _ \"{N}\"\n\n-legacy(x)\n+builtin(x)\n", ["minus"]),
     # two changes add the same import; only the later one applies to the file
     "add-after-unmatched-add": ("@@\nvar x expression\n@@\n+import \"{N}\"\n\n-neverThere(x)\n+{n}.G(x)\n\n@@\nvar x expression\n@@\n+import \"{N}\"\n\n-legacy(x)\n+{n}.F(x)\n", []),
+    # an earlier change of the run reproduces code in which a parameter has the package's name (trace(url.Host) -> url.Host)
+    "delete-after-reproduce": ("@@\nvar y expression\n@@\n-trace(y)\n+y\n\n@@\nvar x expression\n@@\n-import {TS}\n\n-{t}.F(x)\n+builtin(x)\n", ["minus"]),
+    # the same path on two '-' lines, under two names
+    "delete-two-names": ("@@\nvar x expression\n@@\n-import {TS}\n-import dup \"{T}\"\n\n-{t}.F(x)\n+builtin(x)\n", ["minus"]),
     "same-name-takeover": ("@@\nvar x expression\n@@\n-import {TS}\n+import {t} \"{N}\"\n\n-{t}.F(x)\n+{t}.F(x, 1)\n", ["minus"]),
 }
 
@@ -52,6 +56,8 @@ def gen(rng, k):
         fform = "_"
     if kind == "delete-dot":
         fform = "."
+    if kind == "delete-two-names":
+        fform = rng.choice(["alias", treal])
     if "minus-mv" in roles or "context-mv" in roles:
         pform = "$n"
     else:
@@ -60,8 +66,9 @@ def gen(rng, k):
     patch = tmpl.format(T=tpath, TS=spec(pform if pform != "$n" else "n", tpath), t=t, N=npath, n=nreal, r=treal)
     # the file
     others = rng.sample(OTHERS, rng.randint(0, 6))
-    if rng.random() < 0.15:
+    if rng.random() < 0.15 or kind == "delete-two-names":
         others.append(("dup", tpath))                      # the target path a second time under another name
+    dup_used = kind != "delete-two-names" or rng.random() < 0.5
     if rng.random() < 0.1 and npath:
         others.append((rng.choice([None, "already", "_", "."]), npath))   # the '+' import is there already
     has_target = roles != [] or rng.random() < 0.3
@@ -70,7 +77,7 @@ def gen(rng, k):
         imps.insert(rng.randint(0, len(imps)), (fform, tpath))
     rng.shuffle(imps)
     layout = rng.choice(["grouped", "grouped", "single", "blocks", "commented", "mixed"])
-    remaining = rng.random() < 0.5                         # a use of the target the patch does not rewrite
+    remaining = rng.random() < 0.5 and kind != "delete-after-reproduce"    # a use of the target the patch does not rewrite
     body = []
     if kind == "add-unfit-first":
         body = ["type first struct {\n\tlegacyName int\n}", "func a(p int) { _ = legacyName; use(legacyName + p) }"]
@@ -92,12 +99,13 @@ def gen(rng, k):
         key = n if n not in (None, "_", ".") else p.rsplit("/", 1)[-1]
         if key in USES and rng.random() < 0.7:
             body.append("func u_%s() { %s }" % (re.sub(r"\W", "_", key), USES[key]))
-        if n == "dup":
+        if n == "dup" and dup_used:
             body.append("func u_dup() { dup.D() }")
     # a local variable / parameter named like the package is not a reference to the package
-    local_only = bool(roles) and kind in ("replace", "delete", "rename") and not remaining and rng.random() < 0.4
+    local_only = bool(roles) and ((kind in ("replace", "delete", "rename") and not remaining and rng.random() < 0.4) or kind == "delete-after-reproduce")
     if local_only:
-        body.append("func local(%s *Endpoint) string { return %s.Host + %s.Path }" % (t, t, t))
+        body.append(("func local(%s *Endpoint) string { return trace(%s.Host) + %s.Path }" if kind == "delete-after-reproduce" else
+                     "func local(%s *Endpoint) string { return %s.Host + %s.Path }") % (t, t, t))
     if kind != "add-unfit-first":
         rng.shuffle(body)
     src = "package p\n\n" + render_imports(imps, layout, rng) + "\n\n".join(body) + "\n"
@@ -199,6 +207,13 @@ def judge(c, o):
                         "unnamed-import-base-guess" if base_differs else None))
         if not still and c["roles"][0].startswith("minus") and O[key] >= I[key] and c["kind"] != "rename" and not (c["kind"] == "metavar-unalias" and fform is None):
             bad.append(("the import %s on a '-' line is still there although nothing refers to %s any more" % (spec(*key), name), None))
+        if c["kind"] == "delete-two-names":
+            k2 = ("dup", tpath)
+            still2 = uses_name(out, "dup")
+            if still2 and O[k2] < I[k2]:
+                bad.append(("the matched import %s was deleted although the rewritten file still refers to dup" % spec(*k2), None))
+            if not still2 and O[k2] >= I[k2]:
+                bad.append(("the import %s on a '-' line is still there although nothing refers to dup any more" % spec(*k2), None))
     return bad
 
 
